@@ -75,6 +75,7 @@ int runEngineT(Json const & plan) {
     vec<Lit> trail;          // what the SAT engine would hold
     std::vector<int> atomOf; // index into atoms per trail position
     std::vector<char> onTrail(atoms.size(), 0);
+    std::vector<char> deducedAt; // per trail position: 1 if the literal was adopted from a theory deduction
     vec<VarData> vardata;
     vardata.growTo(nv);
     for (int i = 0; i < nv; ++i) vardata[i] = VarData{CRef_Undef, 0};
@@ -93,6 +94,7 @@ int runEngineT(Json const & plan) {
         while (trail.size() > size) {
             onTrail[atomOf.back()] = 0;
             atomOf.pop_back();
+            deducedAt.pop_back();
             trail.pop();
         }
         setTickWatch(true);
@@ -146,6 +148,7 @@ int runEngineT(Json const & plan) {
             bool neg = op[2].asBool();
             trail.push(mkLit(atoms[k], neg));
             atomOf.push_back((int)k);
+            deducedAt.push_back(0);
             onTrail[k] = 1;
             setTickWatch(true);
             bool ok = th.assertLits(trail);
@@ -173,6 +176,7 @@ int runEngineT(Json const & plan) {
             }
             // deductions the SAT engine would enqueue
             std::string ded = "[";
+            std::vector<Lit> deductions;
             int nd = 0;
             if (r == TRes::SAT) {
                 while (nd < 64) {
@@ -183,6 +187,7 @@ int runEngineT(Json const & plan) {
                     int ai = var(d) < nv ? atomIndexOfVar[var(d)] : -1;
                     if (nd) ded += ",";
                     ded += std::to_string(ai < 0 ? 0 : (sign(d) ? -(ai + 1) : (ai + 1)));
+                    deductions.push_back(d);
                     ++nd;
                 }
             }
@@ -190,6 +195,75 @@ int runEngineT(Json const & plan) {
             logRaw("{\"ev\":\"t-step\",\"i\":" + std::to_string(step) + ",\"op\":\"" + (complete ? "check-complete" : "check") + "\",\"res\":\"" +
                    (r == TRes::SAT ? "SAT" : r == TRes::UNKNOWN ? "UNKNOWN" : "UNDEF") + "\",\"splits\":" + std::to_string(nsplits) + ",\"deduced\":" + ded +
                    ",\"trail\":" + trailJson() + "}");
+            // The SAT engine enqueues theory deductions (reason = "theory") and hands them back with the next assertLits.
+            // The plan says which of them are adopted (bit j of the mask for the j-th deduction).
+            long mask = op.arr.size() > 2 ? op[2].asInt() : 0;
+            if (mask != 0 && !deductions.empty()) {
+                int adopted = 0;
+                for (size_t j = 0; j < deductions.size(); ++j) {
+                    if (!((mask >> (j % 30)) & 1)) continue;
+                    Lit d = deductions[j];
+                    int ai = var(d) < nv ? atomIndexOfVar[var(d)] : -1;
+                    if (ai < 0 || onTrail[ai]) continue;
+                    trail.push(d);
+                    atomOf.push_back(ai);
+                    deducedAt.push_back(1);
+                    onTrail[ai] = 1;
+                    ++adopted;
+                }
+                if (adopted) {
+                    setTickWatch(true);
+                    bool ok = th.assertLits(trail);
+                    setTickWatch(false);
+                    if (!ok) {
+                        handleUnsat("adopt", step);
+                    } else {
+                        logRaw("{\"ev\":\"t-step\",\"i\":" + std::to_string(step) + ",\"op\":\"adopt\",\"res\":\"OK\",\"n\":" + std::to_string(adopted) + ",\"trail\":" + trailJson() + "}");
+                    }
+                }
+            }
+        } else if (kind == "reason") {
+            // What conflict analysis does for a theory-propagated literal (CoreSMTSolver::cancelUntilVarTempInit / getReason /
+            // cancelUntilVarTempDone): take the theory back to the trail *before* that literal, ask for the reason, restore.
+            std::vector<int> cand;
+            for (int i = 0; i < trail.size(); ++i) if (deducedAt[i]) cand.push_back(i);
+            if (cand.empty()) continue;
+            int pos = cand[(size_t)op[1].asInt() % cand.size()];
+            Lit p = trail[pos];
+            std::vector<Lit> tailLits; std::vector<int> tailAtoms; std::vector<char> tailDed;
+            for (int i = pos; i < trail.size(); ++i) { tailLits.push_back(trail[i]); tailAtoms.push_back(atomOf[i]); tailDed.push_back(deducedAt[i]); }
+            std::string before = "";
+            popTo(pos);
+            before = trailJson();
+            vec<Lit> reason;
+            setTickWatch(true);
+            th.getReason(p, reason);
+            setTickWatch(false);
+            std::string rec = "{\"ev\":\"t-reason\",\"i\":" + std::to_string(step) + ",\"lit\":" + std::to_string(sign(p) ? -(tailAtoms[0] + 1) : (tailAtoms[0] + 1)) + ",\"prefix\":" + before + ",\"reason\":[";
+            bool bad = reason.size() == 0 || reason[0] != p;
+            for (int i = 0; i < reason.size(); ++i) {
+                Lit l = reason[i];
+                int ai = var(l) < nv ? atomIndexOfVar[var(l)] : -1;
+                if (i) rec += ",";
+                rec += std::to_string(ai < 0 ? 0 : (sign(l) ? -(ai + 1) : (ai + 1)));
+                if (i == 0) continue;
+                bool found = false;
+                for (int k = 0; k < trail.size(); ++k) if (trail[k] == ~l) found = true;
+                if (!found) bad = true;
+            }
+            rec += std::string("],\"off_prefix\":") + (bad ? "true" : "false") + "}";
+            logRaw(rec);
+            for (size_t i = 0; i < tailLits.size(); ++i) {
+                trail.push(tailLits[i]); atomOf.push_back(tailAtoms[i]); deducedAt.push_back(tailDed[i]); onTrail[tailAtoms[i]] = 1;
+            }
+            setTickWatch(true);
+            bool ok = th.assertLits(trail);
+            setTickWatch(false);
+            if (!ok) {
+                handleUnsat("restore", step);
+            } else {
+                logRaw("{\"ev\":\"t-step\",\"i\":" + std::to_string(step) + ",\"op\":\"restore\",\"res\":\"OK\",\"trail\":" + trailJson() + "}");
+            }
         } else if (kind == "backtrack") {
             int n = (int)op[1].asInt();
             if (n > trail.size()) n = trail.size();
